@@ -451,7 +451,7 @@ mismatch between values and axes""".format(inferred, self.values.shape)
     # Internal constructor, useful for subclassing
     #
     @classmethod
-    def _constructor(cls, values, axes, **metadata):
+    def _constructor(cls, values, axes, /, **metadata):
         """ Internal API for the constructor: check whether a pre-defined class exists
 
         values        : array-like
@@ -467,7 +467,9 @@ mismatch between values and axes""".format(inferred, self.values.shape)
         #TODO: use the __new__ operator to bypass all checkings in __init__
         # just check consistency between axes and values shape
 
-        return cls(values, axes, **metadata)
+        obj = cls(values, axes)
+        obj.attrs.update(metadata) # not via __init__: a metadata key may be named like one of its parameters (values, dtype, ...)
+        return obj
 
     def copy(self, shallow=False):
         """ copy of the object and update arguments
